@@ -51,7 +51,7 @@ def observe(t):
 def run_case(c):
     rc = tsmlib.rig_cfg(seg=c["cMax"], lq=c["lq"], lr=c["lr"], pwc=c["cPW"], pws=c["sPW"], retries=1,
                         c_max=c["cMax"], s_max=c["sMax"], c_seg=c["cSeg"], s_seg=c["sSeg"],
-                        c_maxsegs=None if c["cSegs"] in (0, 65) and c["cSegs"] == 0 else c["cSegs"], s_maxsegs=None, known=c["known"])
+                        c_maxsegs=None if c["cSegs"] == 0 else c["cSegs"], s_maxsegs=None, known=c["known"], pre=c.get("pre", False), s_knows_c_max=c.get("iamMax"))
     t = tsmlib.record(rc, limit=6000)
     return rc, t
 
@@ -103,6 +103,19 @@ CHECK_DEADLOCK FALSE
             cases.append(dict(cSeg="segmentedBoth", cMax=cMax, cSegs=0, cPW=2, sSeg="segmentedBoth", sMax=sMax, sSegs=0, sPW=2, known=known, lq=lq, lr=5))
         for lr in range(max(1, cMax - 8), cMax + 2):
             cases.append(dict(cSeg="segmentedBoth", cMax=cMax, cSegs=0, cPW=2, sSeg="segmentedBoth", sMax=sMax, sSegs=0, sPW=2, known=known, lq=5, lr=lr))
+    # role reversal first: the server node has been a client of the client node before (what a node learns about a peer by
+    # serving it must not contradict what the peer announced); every support pair, request too long for one APDU
+    for cSeg, sSeg in itertools.product(SEGS, repeat=2):
+        for known in (False, True):
+            for cMax, sMax in ((50, 128), (480, 50)):
+                L = sMax if known else cMax
+                cases.append(dict(cSeg=cSeg, cMax=cMax, cSegs=0, cPW=2, sSeg=sSeg, sMax=sMax, sSegs=0, sPW=3, known=known,
+                                  lq=2 * L + 3, lr=rng.choice([5, 3 * cMax]), pre=True))
+    # the server has the client's I-Am in its cache, announcing another max APDU length than the request being answered
+    for cMax, iamMax in ((206, 1476), (1476, 206), (50, 128), (480, 480)):
+        for lr in (cMax - 3, cMax - 2, cMax + 40, 3 * cMax):
+            cases.append(dict(cSeg="segmentedBoth", cMax=cMax, cSegs=0, cPW=2, sSeg="segmentedBoth", sMax=1476, sSegs=0, sPW=2, known=True,
+                              lq=5, lr=lr, iamMax=iamMax))
     # max-segments limits: response needing more segments than the request allows
     for segs in (2, 4, 8, 16, 32, 64):
         for extra in (-1, 0, 1):
@@ -118,7 +131,7 @@ CHECK_DEADLOCK FALSE
                 chk.violation("Terminates", {"cSeg": c["cSeg"], "sSeg": c["sSeg"]}, {"case": c}, {"case": c})
                 continue
             o = observe(t)
-            recs.append({"id": n + 1, "c": c, "o": o})
+            recs.append({"id": n + 1, "c": {k: v for k, v in c.items() if k not in ("pre", "iamMax")}, "o": o, "pre": bool(c.get("pre"))})
             chk.case(json.dumps(c, sort_keys=True), nontrivial=o["reqSegd"] or o["respSegd"] or o["outcome"] != "ack")
             if n < 2:
                 chk.sample({"case": c, "observation": o})
@@ -138,7 +151,7 @@ CHECK_DEADLOCK FALSE
     flagged = {v["id"]: v for v in tlc.printed_values(res["output"])}
     for rid, v in sorted(flagged.items()):
         r = byid[rid]
-        c, o = r["c"], r["o"]
+        c, o = dict(r["c"], pre=r["pre"]), r["o"]
         for m in sorted(v["bad"]):
             side = "req" if ((m == "ApduFits" and c["known"] and o["reqMax"] > c["sMax"]) or (m == "SegmentedOnlyIfAllowed" and o["reqSegd"] and c["known"])) else "resp"
             sig = {"side": side, "segmented": bool(o["reqSegd"] if side == "req" else o["respSegd"]), "known": c["known"]}
@@ -149,13 +162,39 @@ CHECK_DEADLOCK FALSE
     chk.traces_validated += len(recs) - len(flagged)
     for m in ("ApduFits", "SegmentedOnlyIfAllowed", "AbortInsteadOfOversize", "WindowRange"):
         chk.monitor(m, len(recs))
+    # windows *used*: a peer that shrinks the window it grants in the middle of a transfer must be obeyed from then on
+    # (TSM.tla's WindowRespectsAck / WindowRange evaluated by TLC on recorded transfers, Trace_TSM.tla)
+    import c05
+    wtr = []
+    for nq, nr, w in ([(9, 1, 4), (1, 9, 4), (10, 10, 3), (12, 1, 127)] if thorough else [(9, 1, 4), (1, 9, 4)]):
+        rcw = tsmlib.rig_cfg(seg=50, nq=nq, nr=nr, pwc=w, pws=w, maxsegs=None)
+        for t in c05.single_fault_traces(rcw, kinds=("shrink",), orders=("fifo",)):
+            wtr.append(t)
+            chk.case(("shrink", nq, nr, w, tuple(t["faults"].items())), nontrivial=True)
+    for i, t in enumerate(wtr):
+        t["tid"] = i + 1
+
+    def onv(t, v):
+        bad = False
+        for m, l in sorted(v["viol"]):
+            if m in ("WindowBound", "WindowRange"):
+                bad = True
+                chk.violation("WindowRange", {"side": "sender", "case": "burst_exceeds_newest_grant" if m == "WindowBound" else "range"},
+                              {"cfg": t["cfg"], "faults": t["faults"], "step": l, "frames": [(f["k"], f["seq"], f["win"]) for f in t["frames"]][:40]},
+                              {"case": None, "tsm": {"cfg": t["cfg"], "faults": t["faults"]}})
+        if not bad:
+            chk.traces_validated += 1
+    tsmlib.validate(chk, wtr, tsmlib.CODE_FLAGS, onv)
     return chk.finish()
 
 
 def replay(path):
     body = json.load(open(path))
-    c = body["replay"]["case"]
     chk = Check("C12", "quick", body.get("seed", 0))
+    if body["replay"].get("tsm"):
+        import c05
+        return c05.replay_tsm(body["replay"]["tsm"], "C12", {"WindowBound", "WindowRange"})
+    c = body["replay"]["case"]
     rc, t = run_case(c)
     print("case", c)
     print("observed", observe(t))
